@@ -15,7 +15,7 @@ from analysis import cfg, atoms as A, preach, layout as L, writes
 from analysis.ir import callee_path, AnchorMissing
 from analysis.prov import prov_of, prov_assuming, strip, leaves, subterms, show
 from analysis.match import is_param, is_field, is_call, const_val, sh, mentions, fail_conditions
-from rules.common import calls_to, ends, arg_name
+from rules.common import calls_to, ends, arg_name, acc
 from rules import C12
 
 TA = "state::tick_array::TickArrayType"
@@ -342,4 +342,61 @@ def R5_shared_checks(run):
                       detail="None => TickNotFound")
 
 
-RULES = [R1_constants, R2_shift_bitmap_pairing, R3_byte_offset, R4_size_and_rent, R5_shared_checks]
+def R6_account_wiring(run):
+    run.title("R6", "update_tick_array_accounts (both): the lower array's rent / size update is executed on the lower array account and the upper one's on the upper account, "
+                    "all four executions checked; the handlers pass (position, lower account, upper account, update.lower, update.upper) in that order")
+    facts = run.facts
+    for path in ("manager::tick_array_manager::update_tick_array_accounts", "pinocchio::ported::manager_tick_array_manager::pino_update_tick_array_accounts"):
+        fn = facts.need_fn(path)
+        run.touch(fn)
+        short = path.rsplit("::", 1)[-1]
+        pv = prov_of(fn)
+        got = []
+        for bi, t in fn.calls():
+            p = callee_path(t) or ""
+            if not p.endswith(("::execute", "_execute")):
+                continue
+            args = [strip(pv.operand(a, bi, len(fn.blocks[bi]["s"]))) for a in t["a"]]
+            recv = args[0]
+            kind = recv[2] if recv[0] == "field" else "?"
+            side_u = "lower" if mentions(recv, lambda s_: s_[0] == "param" and s_[1].startswith("lower_")) else "upper" if mentions(recv, lambda s_: s_[0] == "param" and s_[1].startswith("upper_")) else "?"
+            accts = [x for x in args[1:] if mentions(x, lambda s_: s_[0] == "param" and "tick_array" in s_[1])]
+            side_a = "?"
+            if len(accts) == 1:
+                side_a = "lower" if mentions(accts[0], lambda s_: s_[0] == "param" and s_[1].startswith("lower_")) else "upper"
+            got.append((kind, side_u, side_a, cfg.result_checked(fn, bi)))
+        want = sorted([("transfer_rent", "lower", "lower", True), ("transfer_rent", "upper", "upper", True), ("size_update", "lower", "lower", True), ("size_update", "upper", "upper", True)])
+        run.check("R6", "executions@" + short, sorted(got) == want, "%s executes (update kind, update side, account side, checked) = %s; expected each side's update on its own account" % (path, sorted(got)),
+                  loc=fn.loc(), detail="lower update -> lower account; upper update -> upper account (rent and size)")
+    # callers
+    n = 0
+    for fn in facts.fn_list:
+        if fn.kind == "const":
+            continue
+        for bi, t in fn.calls():
+            p = callee_path(t) or ""
+            if not p.endswith(("::update_tick_array_accounts", "::pino_update_tick_array_accounts")):
+                continue
+            pv = prov_of(fn)
+            args = [pv.operand(a, bi, len(fn.blocks[bi]["s"])) for a in t["a"]]
+
+            def side(t_):
+                names = {s_[2] for s_ in subterms(t_) if s_[0] == "field"} | {s_[1] for s_ in subterms(t_) if s_[0] in ("param", "var")} | {acc(s_) for s_ in subterms(t_) if acc(s_)}
+                lo = any("lower" in (x or "") for x in names)
+                up = any("upper" in (x or "") for x in names)
+                return "lower" if lo and not up else "upper" if up and not lo else "?"
+            def outer(t_):
+                n_ = arg_name(t_) or acc(t_) or ""
+                if not n_ and fn.path.startswith("pinocchio::"):
+                    from analysis import pino
+                    sl = pino.slot_of_term(fn, t_)
+                    n_ = sl.name if sl is not None else ""
+                return "lower" if "lower" in n_ else "upper" if "upper" in n_ else side(t_)
+            sides = [outer(args[1]), outer(args[2]), outer(args[3]), outer(args[4])]
+            n += 1
+            run.check("R6", "caller@%s#%d" % (fn.path, n), sides == ["lower", "upper", "lower", "upper"], "%s passes %s to %s, expected (lower account, upper account, lower update, upper update)" %
+                      (fn.path, sides, p.rsplit("::", 1)[-1]), loc=fn.loc(t["l"]), detail="(lower, upper, lower, upper)")
+    run.floor("R6", "callers", n, 6)
+
+
+RULES = [R6_account_wiring, R1_constants, R2_shift_bitmap_pairing, R3_byte_offset, R4_size_and_rent, R5_shared_checks]
